@@ -181,6 +181,8 @@ func c15Fixture(t *testing.T, a *chain.App, ctx sdk.Context) *c15Env {
 	e.liqPair = 1
 	e.msg(t, a, ctx, true, liquiditytypes.NewMsgCreatePool(e.appSwap, e.user1, e.liqPair, sdk.NewCoins(sdk.NewCoin("uasset1", sdk.NewInt(1000000000)), sdk.NewCoin("uasset4", sdk.NewInt(1000000000)))))
 	e.liqPool = 1
+	// keep the oracle "validated" so that market.BeginBlocker does not deactivate every price
+	a.BandoracleKeeper.SetOracleValidationResult(ctx, true)
 	return e
 }
 
